@@ -223,6 +223,8 @@ def mon_c10(tr):
             return ("func_count", f"fault {kind} at call {k}: func_count {tr['final']['snap']['fc']} != {k - 1} valid calls")
         if any((v is None or not math.isfinite(v)) for v in tr["final"]["logY"]):
             return ("invalid-logged", "a non-finite value was logged")
+        if len(tr["final"]["logY"]) > k - 1:
+            return ("invalid-logged", f"fault {kind} at call {k}: the log holds {len(tr['final']['logY'])} rows after only {k - 1} valid calls")
     return None
 
 
